@@ -167,6 +167,26 @@ CHECKS = {
              "{ini,toml}, every -D value over a small alphabet up to length 3, the getter table.",
         note="Trusted: option model in vf/props/c20.py derived from docs/behave.rst. Open: merging of several files, contradictory "
              "forcing options, undocumented defaults."),
+    "C16": dict(
+        level="exploration", design="DESIGN.md 5/C16",
+        technique="property-based testing / fuzzing of report content: generated runs through the real Runner with --junit, names, "
+                  "messages and captured output drawn from a hostile alphabet; oracle = independent XML parser (expat) + counters "
+                  "recounted from the document + model statuses",
+        text="Every TESTS-*.xml written for generated runs (hostile characters in feature / scenario / step names, assertion and "
+             "exception messages, captured stdout / stderr; hook faults, raising cleanups, --stop, dry-run; show_skipped and junit "
+             "userdata switches) must parse with expat, contain exactly the feature's scenarios (rows included, skipped iff shown) "
+             "with their final status, have tests/failures/errors/skipped equal to the recounted entries, and carry a failure/error "
+             "entry naming the responsible step or hook for every failed or errored scenario; the reporter must never raise.",
+        note="Trusted: expat. Names compared literally only when legal XML text. ']]&gt;' inside CDATA is read as ']]>' (documented work-around)."),
+    "C17": dict(
+        level="exploration", design="DESIGN.md 5/C17",
+        technique="property-based testing of two-run histories (run -> rerun file -> run @file) on scratch projects with the real "
+                  "Runner; oracle = model statuses after run 1 and selection observed in run 2",
+        text="Run 1 with `-f rerun -o FILE` (FILE in cwd or a sub-directory, optionally a stale FILE) over 1-3 generated feature files "
+             "with passing / failing / erroring / deselected scenarios and outline rows; the non-comment lines of FILE must be "
+             "exactly the locations of the scenarios with failed or error-class final status in run order, FILE must be absent "
+             "when there are none; run 2 with @FILE must start exactly those scenarios and skip all others.",
+        note="Trusted: model statuses after run 1. Hook faults are not re-injected in run 2."),
 }
 
 PENDING_REASON = "not yet claimed in this revision: the check for this property is still under construction (see DESIGN.md 5)"
